@@ -71,6 +71,7 @@ Diff(cfg, e, r) ==
     \cup (IF r.helpof = e.helpof THEN {} ELSE {"helpof"})
     \cup (IF r.exits = <<>> THEN {} ELSE {"exits"})
     \cup (IF r.seterrs = e.seterrs THEN {} ELSE {"seterr"})
+    \cup (IF r.aliased THEN {"aliased"} ELSE {})
     \cup (IF r.nondet THEN {"nondet"} ELSE {})
 
 (* History cases: an earlier Parse ran on the same object.  What that call  *)
